@@ -376,7 +376,9 @@ impl<'tcx> Cx<'tcx> {
         match c {
             Const::Val(v, _) => {
                 o.push(("ck", s("val")));
-                if let ConstValue::Scalar(mir::interpret::Scalar::Int(i)) = v {
+                if matches!(cty.kind(), ty::Float(_)) {
+                    o.push(("float", J::B(true)));
+                } else if let ConstValue::Scalar(mir::interpret::Scalar::Int(i)) = v {
                     let size = i.size();
                     if size.bytes() > 0 {
                         let bits = i.to_bits(size);
